@@ -11,6 +11,7 @@ def run(c):
     cfg = 'CONSTANT Tier = "%s"\nINIT Init\nNEXT Next\nCONSTRAINT Emit\nCHECK_DEADLOCK FALSE\n' % ("q" if c.quick else "t")
     cfgs = c.tlc("MC_P7Third", "run.cfg", files={"run.cfg": cfg}, name="producer-configurations").json_lines()
     cfgs += c.tlc("MC_P7Third", "sig.cfg", files={"sig.cfg": cfg.replace("INIT Init", "INIT SigInit")}, name="signature-value-shapes").json_lines()
+    cfgs += c.tlc("MC_P7Third", "two.cfg", files={"two.cfg": cfg.replace("INIT Init", "INIT TwoInit")}, name="two-signers").json_lines()
     scen = [dict(g, sc=i, mode="none", n=0, tz=("", "+09:00", "-03:30")[i % 3]) for i, g in enumerate(cfgs)]      # process time zone: UTC, +09:00, -03:30
     fx = ["fixture-sbsign", "fixture-sbvarsign", "fixture-sbvarsign-db", "fixture-hello-signed", "fixture-kek-noattrs", "fixture-testsigned-noattrs"]
     scen += [{"sc": 10 ** 6 + 10 * i + k, "source": n, "mode": "none", "n": 0, "tz": z} for i, n in enumerate(fx) for k, z in enumerate(("", "+09:00", "-03:30"))]
